@@ -184,6 +184,9 @@ static void scalar(mon::Rng& rng)
       load_case<T>("load-copy_and_verify-volatile", off, gs, v, [&] { return (*p).copy_and_verify([](T x) { return x; }); });
       load_case<T>("load-copy_and_verify-pointer", off, gs, v, [&] { return p.copy_and_verify([](std::unique_ptr<T> x) { return *x; }); });
       load_case<T>("load-copy_and_verify_range-1", off, gs, v, [&] { return p.copy_and_verify_range([](std::unique_ptr<T[]> x) { return x[0]; }, 1); });
+      // the same pointer with a cv-qualified pointee (programs of the pinned tree: they have to stay programs)
+      load_case<T>("load-copy_and_verify-pointer-to-volatile", off, gs, v, [&] { return sandbox_reinterpret_cast<volatile T*>(p).copy_and_verify([](std::unique_ptr<T> x) { return *x; }); });
+      load_case<T>("load-copy_and_verify-pointer-to-const", off, gs, v, [&] { return sandbox_reinterpret_cast<const T*>(p).copy_and_verify([](std::unique_ptr<T> x) { return *x; }); });
       load_case<T>("load-index0", off, gs, v, [&] { tainted<T, S> t = p[0]; return t.UNSAFE_unverified(); });
     }
     // ---- hostile encodings: a bool cell of the sandbox can hold any byte; what reaches the application must be a valid bool
@@ -212,6 +215,10 @@ static void scalar(mon::Rng& rng)
         mon::ctx("load/hostile-bool/copy_and_verify_range | off=%llu byte 0x%02x", (unsigned long long)off, hb);
         ab = mon::aborts([&] { p.copy_and_verify_range([&](std::unique_ptr<bool[]> v) { std::memcpy(&got, v.get(), 1); return 0; }, 1); });
         judge("load-copy_and_verify_range/hostile-encoding", ab, got);
+        got = 0;
+        mon::ctx("load/hostile-bool/UNSAFE_sandboxed | off=%llu byte 0x%02x", (unsigned long long)off, hb);
+        ab = mon::aborts([&] { bool v = (*p).UNSAFE_sandboxed(*SB); std::memcpy(&got, &v, 1); });
+        judge("load-UNSAFE_sandboxed/hostile-encoding", ab, got);
       }
     }
     // ---- read-modify-write forms on integers and floats
@@ -540,6 +547,12 @@ int main(int argc, char** argv)
           mon::ctx("load/hostile-bool-enum/copy_and_verify_range | off=%llu byte 0x%02x element %d", (unsigned long long)off, hb, pos);
           ab = mon::aborts([&] { p.copy_and_verify_range([&](std::unique_ptr<Flag[]> v) { std::memcpy(&got, v.get() + pos, 1); return 0; }, 4); });
           judge("load-copy_and_verify_range/hostile-encoding", ab, got);
+          if (pos == 0) {
+            got = 0;
+            mon::ctx("load/hostile-bool-enum/UNSAFE_sandboxed | off=%llu byte 0x%02x", (unsigned long long)off, hb);
+            ab = mon::aborts([&] { Flag v = (*p).UNSAFE_sandboxed(sb); std::memcpy(&got, &v, 1); });
+            judge("load-UNSAFE_sandboxed/hostile-encoding", ab, got);
+          }
           got = 0;
           mon::ctx("load/hostile-bool-enum/array-load | off=%llu byte 0x%02x element %d", (unsigned long long)off, hb, pos);
           ab = mon::aborts([&] { tainted<Flag[4], S> a = *pa; std::memcpy(&got, reinterpret_cast<unsigned char*>(&a) + pos, 1); });
